@@ -96,7 +96,18 @@ def _synthetic_compiler(nq, table):
                 self.gate_compiler[s["name"]] = self._one
 
         def _one(self, gate, args):
-            return [_mk_instruction(gate, self._specs[int(gate.arg_value)])]
+            spec = self._specs[int(gate.arg_value)]
+            key = spec.get("share")
+            if key is None:
+                ins = _mk_instruction(gate, spec)
+            else:
+                # a cached Instruction: gates with the same "share" key get the SAME object
+                cache = self.__dict__.setdefault("_cache", {})
+                if key not in cache:
+                    cache[key] = _mk_instruction(gate, spec)
+                ins = cache[key]
+            # "repeat": the same object several times within one gate (e.g. X as [half, half])
+            return [ins] * int(spec.get("repeat", 1))
 
     return Syn(nq, table)
 
@@ -252,9 +263,11 @@ def run_real(case, comp=None, offset=0):
                 comp = _synthetic_compiler(case["nq"], case["gates"])
             gates = [_mk_gate(g, offset + i) for i, g in enumerate(case["gates"])]
             args = None
-            specs = [{"tl": g["tl"], "pulses": g["pulses"]} for g in case["gates"]]
+            specs = [{"tl": g["tl"], "pulses": g["pulses"]} for g in case["gates"] for _ in range(int(g.get("repeat", 1)))]
             try:
-                ins = [_mk_instruction(_mk_gate(g, i), g) for i, g in enumerate(case["gates"])]
+                # the independent side uses one fresh Instruction per list position
+                ins = [_mk_instruction(_mk_gate(g, i), g) for i, g in enumerate(case["gates"])
+                       for _ in range(int(g.get("repeat", 1)))]
             except Exception:
                 ins = None
         else:
@@ -421,7 +434,8 @@ def windows(specs, starts):
                 w = dict(s=s, ts=[float(x) for x in val], cs=[float(x) for x in c], kind="continuous", idx=idx)
             else:
                 return None
-            if w["ts"][0] != 0.0 or any(b <= a for a, b in zip(w["ts"], w["ts"][1:])):
+            # Instruction accepts a sample grid whose first point is within 1e-8 of zero
+            if abs(w["ts"][0]) > 1.0e-8 or any(b <= a for a, b in zip(w["ts"], w["ts"][1:])):
                 return None
             ch.setdefault(name, []).append(w)
     return ch
@@ -502,8 +516,9 @@ def oracle(specs, starts, out, exact):
             segs = []
             for w in ws:
                 # (non-dyadic inputs: a gap of a few ulps is float noise of the schedule, not an idle gap)
-                if w["s"] > prev and (exact or w["s"] - prev > 1e-9 * max(abs(prev), abs(w["s"]))):
-                    segs.append((prev, N(w["s"])))
+                w0 = N(w["s"]) + N(w["ts"][0])      # the window starts at start + tlist[0] (= start when tlist[0] = 0)
+                if w0 > prev and (exact or w0 - prev > 1e-9 * max(abs(prev), abs(w0))):
+                    segs.append((prev, w0))
                 prev = N(w["s"]) + N(w["ts"][-1])
             end = tlN[-1]
             segs.append((prev, max(end, prev) + max(N(1), prev)))
@@ -627,6 +642,19 @@ def classify(failure):
             if Fraction(a["s"]) + Fraction(a["ts"][-1]) > Fraction(b["s"]):
                 return "scheduler-overlap-c11"
         return None
+    if kind in ("zero", "window") and starts is not None and specs is not None and "t" in obs:
+        # class tlist-offset-ignored: the failing time lies between start and start + tlist[0] of a sampled
+        # instruction on that channel whose grid starts at a non-zero offset (|tlist[0]| <= 1e-8, accepted by Instruction)
+        try:
+            ws0 = windows(specs, starts)[obs["channel"]]
+            t0x = Fraction(obs.get("t_exact", obs["t"]))
+            for w in ws0:
+                off = Fraction(w["ts"][0])
+                lo, hi = sorted((Fraction(w["s"]), Fraction(w["s"]) + off))
+                if off != 0 and lo <= t0x < hi:
+                    return "tlist-offset-ignored"
+        except Exception:
+            pass
     if kind == "zero" and starts is not None and specs is not None and "t" in obs:
         # class idle-gap-below-tolerance: the failing time lies in an idle gap (0 < gap <= 1e-6 * step of the
         # instruction that follows the gap) on a discrete channel
@@ -758,6 +786,60 @@ def gen_case(rng, flavor, big=False, mode="random"):
         gates = [g for g in gates if not any(p[0] == ch or p[0] == "g" for p in g["pulses"])][:3]
         gates = gates + [a, i, b]
         mode = None
+    if flavor == "sameobj":
+        # a user compiler that returns ONE Instruction object several times: within a gate ("repeat", e.g. X as
+        # [half, half]) and for several gates ("share": a cached instruction); unscheduled modes
+        nq = rng.randint(1, 3)
+        gates = []
+        shared = {}
+        for _ in range(rng.randint(2, 6)):
+            q = rng.randrange(nq)
+            r = rng.random()
+            if r < 0.35 and q in shared:
+                g = dict(shared[q])
+            else:
+                if rng.random() < 0.5:
+                    tl = ["scalar", _dy(rng, -6, 6)]
+                    pulses = [["x%d" % q, _coef(rng)]]
+                else:
+                    ts = _sampled(rng, False, -6, 6)
+                    tl = ["arr", ts]
+                    pulses = [["x%d" % q, [_coef(rng) for _ in ts[1:]]]]
+                    if rng.random() < 0.3:
+                        pulses.append(["y%d" % q, [_coef(rng) for _ in ts[1:]]])
+                g = {"name": "G%d" % rng.randint(0, 2), "targets": [q], "controls": None, "tl": tl, "pulses": pulses}
+                if rng.random() < 0.5:
+                    g["share"] = "k%d" % len(gates)
+                    shared[q] = g
+            if rng.random() < 0.45:
+                g = dict(g, repeat=rng.randint(2, 3))
+            gates.append(g)
+        if not any(g.get("repeat", 1) > 1 or g.get("share") for g in gates):
+            gates[0] = dict(gates[0], repeat=2)
+        return {"kind": "synthetic", "mode": rng.choice([None, False]), "nq": nq, "gates": gates, "flavor": flavor}
+    if flavor == "offset":
+        # sampled discrete pulses whose grid starts at a tiny non-zero offset accepted by Instruction (|t0| <= 1e-8),
+        # with durations of the same tiny order; unscheduled modes; all times exact in binary64
+        nq = rng.randint(1, 2)
+        gates = []
+        for _ in range(rng.randint(2, 5)):
+            q = rng.randrange(nq)
+            if rng.random() < 0.25:
+                gates.append({"name": "G2", "targets": [q], "controls": None, "tl": ["none", 2.0 ** rng.randint(-27, -22)], "pulses": []})
+                continue
+            h = 2.0 ** rng.randint(-26, -22)
+            t0 = rng.choice([0.0, 2.0 ** -27, 2.0 ** -28, -2.0 ** -27, 2.0 ** -27 + 2.0 ** -29])
+            n = rng.randint(1, 3)
+            ts = [t0] + [t0 + h * (k + 1) for k in range(n)] if rng.random() < 0.5 else [t0] + [h * (k + 1) for k in range(n)]
+            if ts[1] <= ts[0]:
+                ts = [t0] + [t0 + h * (k + 1) for k in range(n)]
+            gates.append({"name": "G%d" % rng.randint(0, 1), "targets": [q], "controls": None, "tl": ["arr", ts],
+                          "pulses": [["x%d" % q, [_coef(rng) for _ in ts[1:]]]]})
+        if not any(g["pulses"] and g["tl"][1][0] != 0.0 for g in gates if g["tl"][0] == "arr"):
+            h = 2.0 ** -24
+            gates.insert(0, {"name": "G0", "targets": [0], "controls": None, "tl": ["arr", [2.0 ** -27, h, 2 * h]],
+                             "pulses": [["x0", [_coef(rng), _coef(rng)]]]})
+        return {"kind": "synthetic", "mode": rng.choice([None, False]), "nq": nq, "gates": gates, "flavor": flavor}
     if flavor == "cycle":
         # per-qubit chains of non-commuting gates (alternating names), listed qubit after qubit: the start times by
         # list position look like [0, a, a+b, 0, c, 0, d, ...], whose time order is a permutation with cycles of
@@ -1101,7 +1183,8 @@ def correspond(ctx):
     n_corpus = len(cases)
     plan = [("discrete", ctx.n(400, 2500)), ("continuous", ctx.n(300, 2000)), ("perqubit", ctx.n(200, 1200)),
             ("mixed", ctx.n(120, 800)), ("ratio", ctx.n(150, 800)), ("lategap", ctx.n(80, 400)),
-            ("resgap", ctx.n(40, 200)), ("resgap_below", ctx.n(20, 100)), ("cycle", ctx.n(50, 300))]
+            ("resgap", ctx.n(40, 200)), ("resgap_below", ctx.n(20, 100)), ("cycle", ctx.n(50, 300)),
+            ("sameobj", ctx.n(60, 300)), ("offset", ctx.n(60, 300))]
     for flavor, n in plan:
         for _ in range(n):
             cases.append(gen_case(rng, flavor, big=ctx.thorough and rng.random() < 0.5))
@@ -1188,7 +1271,7 @@ def search(ctx, broken):
         if isinstance(detail, dict) and isinstance(detail.get("input"), dict):
             cands.append(detail["input"])
     rng = ctx.rng
-    for flavor in ("ratio", "lategap", "resgap", "cycle", "discrete", "continuous", "perqubit"):
+    for flavor in ("ratio", "lategap", "resgap", "cycle", "sameobj", "offset", "discrete", "continuous", "perqubit"):
         for _ in range(ctx.n(150, 800)):
             cands.append(gen_case(rng, flavor))
     for _ in range(ctx.n(150, 600)):
